@@ -36,6 +36,23 @@ CHECKS = {
  "C14": ("grid", "model_checking", "exhaustive small-scope enumeration of buffer methods x values x fill levels x buffer sources with whole-image before/after comparison",
          "every put/write/get of 10 integer types x 3 byte orders, u8/i8, put_slice and io::Write of every length, set_len to every length, align_to/put/put_aligned over 100+ layouts and 8 varint types, at every fill level of buffers of capacity 0..=20 taken from fresh, padded and recycled space, borrowed and owned, sync and unsync",
          "value alphabet boundary-dense, not exhaustive over 2^128", "6 C14"),
+ "C04": ("grid+E2", "fault_enumeration", "complete enumeration of a boundary-dense size grid x type layouts x reachable states, in single-threaded child processes per build profile (release and overflow-checked)",
+         "every allocation flavour with every size of a 45-value boundary grid (around remaining, capacity, 2^31, 2^32-allocated, u32::MAX) and 60+ type layouts as the final call after every prefix of <= 2 operations from 6 start states in 12 configuration cells, on both flavours, plus read-only arenas; each call must succeed under the C01/C03 oracles or fail cleanly with the state unchanged; panics and fatal signals are caught and attributed",
+         "capacities <= 264; sharded over child processes so that a wild write cannot hit another case", "6 C04"),
+ "C15": ("grid", "model_checking", "complete enumeration of offsets x readers x fill states against reference decoders, with a poisoned twin arena for varints",
+         "26 readers x every offset 0..=capacity+16 and usize extremes x 6 (11) fill states x backends x flavours", "contents fixed byte-distinct pattern", "6 C15"),
+ "C16": ("grid+E2", "model_checking", "complete construction grid plus bounded exhaustive histories with layout oracle and side-by-side image equality on three unified backends",
+         "reserved x capacity-around-prefix x layout x backend x flavour constructions checked against the Options formulas and accessors; every history of depth 3 (4) with reserved-prefix immutability, remaining()==capacity-allocated, first-offset; every history on Vec/anon/file unified arenas with byte-identical images after every step",
+         "quick tier: reserved 0..=72 plus selected values up to 4096", "6 C16"),
+ "C17": ("grid+E2", "model_checking", "boundary-dense ArenaPosition grid against an i128 reference clamp; histories with rewinds; clear + continuation differential against a fresh arena",
+         "every position of the grid in 5 states x 16 cells x 2 flavours; every history of depth 3 (4) containing rewinds; every history x clear x every continuation of depth 2 (3) compared step by step with the same continuation on a fresh arena with the minimum segment size in force",
+         "rewinds that would leave a free segment above the cursor are outside the caller contract and disabled", "6 C17"),
+ "C18": ("grid+E2", "model_checking", "truncate(n) over an n-grid after every bounded history, followed by allocations under the shadow/policy/zero oracles",
+         "n over 0..=4*capacity (boundary-dense in quick) after every history of depth 2 (3) from 4 start states in 15 cells; capacity == max(n, allocated), allocator state and bytes below allocated unchanged, follow-up allocations fit exactly the new capacity; read-only arenas refuse",
+         "live data is detached before truncate (handles embedding clones across a truncate are outside the quantifier)", "6 C18"),
+ "C19": ("grid", "model_checking", "complete enumeration of allocated lengths x reserved lengths with two checksummers against the one-shot digest",
+         "every allocated length up to 3 pages + 80 x reserved 0..=64 (quick: all lengths for 4 reserved values, page-boundary-dense for the rest) x Crc32 and an order-sensitive position hash x both flavours",
+         "contents a fixed position-dependent pattern", "6 C19"),
 }
 PENDING = {}  # id -> reason (filled while the build is in progress)
 ALL = ["C%02d" % i for i in range(1, 21)]
@@ -65,7 +82,7 @@ m = {
  },
  "engines": [
    {"name": "E1-schedule", "path": "/verif/mc/src/sched.rs", "serves_properties": sorted(k for k,v in CHECKS.items() if v[0]=="E1-schedule"), "kind_free_text": "stateless DFS over scheduler choice prefixes with a preemption bound; logical threads are coroutines switched only at the hooked atomic accesses of the real implementation"},
-   {"name": "grid", "path": "/verif/mc/src/props_buf.rs", "serves_properties": sorted(k for k,v in CHECKS.items() if v[0]=="grid"), "kind_free_text": "complete enumeration of a finite input grid against reference encodings"},
+   {"name": "grid", "path": "/verif/mc/src/props_grid.rs (+ props_buf.rs, props_c04.rs)", "serves_properties": sorted(k for k,v in CHECKS.items() if v[0].startswith("grid")), "kind_free_text": "complete enumeration of a finite input grid against reference encodings"},
    {"name": "E2-history", "path": "/verif/mc/src/hist.rs", "serves_properties": sorted(k for k,v in CHECKS.items() if v[0]=="E2-history"), "kind_free_text": "depth-bounded exhaustive enumeration of operation histories on the real implementation, image-restore between histories"},
  ],
  "checks": checks,
